@@ -557,6 +557,8 @@ class Engine:
     def elem_ty(self, v):
         t = self.full_ty(v)
         if t[1] is None:
+            if self.st.spec:
+                return "any"
             raise OutOfSubset("list element type unknown (declare it under locals)")
         v.ty = t
         return t[1]
@@ -755,6 +757,10 @@ class Engine:
     def ev_List(self, e):
         items = [self.ev(x) for x in e.elts]
         if self.st.spec:
+            return self.new_tuple(items)
+        if items and any(i.ty != items[0].ty or i.none is not None for i in items):
+            # fixed-shape heterogeneous list literal (e.g. a report row): modelled as an immutable tuple
+            self.notes.append("heterogeneous list literal modelled as tuple: " + U(e)[:60])
             return self.new_tuple(items)
         return self.list_from(items, items[0].ty if items else None)
 
